@@ -391,6 +391,6 @@ package encode
 //@   modifies e mem.u8
 //@   ensures [inv] Inv
 //@   ensures [C10.step.Reset C17.enc.reset.proto] (= S1 P.Styling)
-//@   ensures [C17.enc.reset-total C10.reset.fields] (and (not e.HighResolutionCoordinates) (not e.highResolutionCoordinates) (= e.err nil.Iface) (= e.lod0 (_ +zero 8 24)) (= e.lod1 (_ +oo 8 24)) (= e.cSel #x00) (= e.nSel #x00) (= e.mode #x01) (= e.drawOp #x00) (= (len e.drawArgs) (int 0)) (= e.metadata.ViewBox viewbox) (= e.metadata.Palette palette))
+//@   ensures [C17.enc.reset-total C10.reset.fields C07.enc.reset.sel] (and (not e.HighResolutionCoordinates) (not e.highResolutionCoordinates) (= e.err nil.Iface) (= e.lod0 (_ +zero 8 24)) (= e.lod1 (_ +oo 8 24)) (= e.cSel #x00) (= e.nSel #x00) (= e.mode #x01) (= e.drawOp #x00) (= (len e.drawArgs) (int 0)) (= e.metadata.ViewBox viewbox) (= e.metadata.Palette palette))
 //@   ensures [C17.enc.reset.scratch] (= e.scratch ((as const (Array (_ BitVec 64) (_ BitVec 8))) #x00))
 //@   invariant 0 [reset.n] (and (bvsle (int -1) n) (bvsle n (int 63)))
